@@ -7,4 +7,7 @@ unset GOWORK
 if [ ! -x bin/mtailsa ] || [ -n "$(find sa -name '*.go' -newer bin/mtailsa 2>/dev/null | head -1)" ]; then
   ./setup.sh >/dev/null 2>&1 || { echo "BROKEN: cannot build the analyser"; exit 2; }
 fi
-exec bin/mtailsa check -property "$1" -tier "${2:-quick}" -root "${VERIF_ROOT:-/repo}"
+if [ "${2:-quick}" = "thorough" ]; then
+  exec python3 tools/thorough.py "$1"
+fi
+exec bin/mtailsa check -property "$1" -tier quick -root "${VERIF_ROOT:-/repo}"
